@@ -687,6 +687,9 @@ class Lifter:
         if isinstance(a, IdxV) and isinstance(b, RF) and b.is_const() and op in (ast.Add, ast.Sub):
             k = int(b.const_value())
             return IdxV(a.index, a.off + (k if op is ast.Add else -k), a.extent)
+        if isinstance(a, Ptr) and isinstance(b, Ptr) and op is ast.Sub and a.kind == b.kind == "grp" \
+                and a.idx.index == b.idx.index and a.idx.off == 1 and b.idx.off == 0:
+            return size_of(("grp", a.idx.index))
         if isinstance(a, (Csc, RowGather)) or isinstance(b, (Csc, RowGather)):
             return self.csc_binop(op, a, b)
         if op is ast.MatMult:
